@@ -18,6 +18,9 @@ class C04(ProgProp):
 
 
     def gen(self, rng, tier, k):
+        if k % 16 == 7:
+            from .. import gen as g
+            return self.motif_case(rng, tier, g.motif_cache_hit(rng))
         if k % 100 == 37:
             from .. import gen as g
             return self.motif_case(rng, tier, g.motif_wide(rng, "plain"))
